@@ -37,7 +37,7 @@ pub fn run_one(run: u64, seed: u64) -> RunOut {
         let a_port = tx_a.local_port();
 
         let idle_receiver = variant == 1;
-        let receiver = tokio::spawn(async move {
+        let receiver = crate::sched::spawn(async move {
             let mut got = 0usize;
             if idle_receiver {
                 // never polls the receiver; keeps it alive
@@ -73,7 +73,7 @@ pub fn run_one(run: u64, seed: u64) -> RunOut {
             net.set_starved(Dir::BA, true);
         }
         let lens2 = lens.clone();
-        let sender = tokio::spawn(async move {
+        let sender = crate::sched::spawn(async move {
             let mut done = 0usize;
             for (i, len) in lens2.iter().enumerate() {
                 crate::simnet::bump_progress();
